@@ -2,7 +2,7 @@
 from __future__ import annotations
 
 from .. import gen, model
-from ..common import exc_str, names_rows, rewrite_counters, short
+from ..common import exc_str, names_rows, rewrite_counters, short, typed
 from ..dbx import BuildFailure, Builder, make_engines
 
 ID = "C01"
@@ -19,20 +19,26 @@ RULE = (
     "markers (a count-dependent RowFilter, an order-dependent Reordering, a MarkerRelation subclass; run by an "
     "iteration.Engine subclass implementing apply_custom_unary_operation), chains of a program with its twin over "
     "equal-named leaves, two branches adding the same column over one shared operand, and leaves whose payload is "
-    "a lazily chained iterable; result rows are collected as objects before they are compared. "
+    "a lazily chained iterable; result rows are collected as objects before they are compared.  8 % of the levels stack "
+    "5-9 unary operations, 15 % of the binary operations are immediately followed by another one (three-way chains), "
+    "and 15 % of the cases mix int / float / bool / -0.0 representations of equal numbers in the leaf rows, compared "
+    "type-sensitively, so which of several equal rows a deduplication or a stable sort lets through is observable. "
 )
 ASSUMPTIONS = [
     "reference model vmon/model.py (full-row first-occurrence deduplication, stable multi-key sort via comparator)",
     "cases where key-only and full-row deduplication differ on the actual data (non-key columns not functionally "
     "dependent on keys) are outside ColumnTag.is_key's documented contract and are discarded and counted",
 ]
-MIN_OBS = {"compared": 200, "elided_or_merged_Slice": 5, "elided_or_merged_Sort": 5, "elided_or_merged_Projection": 5, "elided_or_merged_Selection": 3}
+MIN_OBS = {"compared": 200, "programs_with_8_or_more_operations": 20, "mixed_numeric_types": 20, "elided_or_merged_Slice": 5, "elided_or_merged_Sort": 5, "elided_or_merged_Projection": 5, "elided_or_merged_Selection": 3}
 CFG = dict(
     engines=("it", "it2"),
     ops=("calc", "proj", "sel", "dedup", "sort", "slice", "chain", "mat", "mark", "cap", "rev"),
     weights={"slice": 1.6, "sort": 1.4, "proj": 1.2, "sel": 1.3, "mark": 0.4, "cap": 0.4, "rev": 0.4},
     xfer_prob=0.06,
     total_sort_prob=0.35,
+    tall_prob=0.08,
+    wide_prob=0.15,
+    flavour_prob=0.15,
 )
 
 
@@ -79,16 +85,25 @@ def run_case(case):
     out["counters"]["compared"] = 1
     rw = rewrite_counters(prog, rel)
     out["counters"].update(rw)
-    if got1 != want.rows:
+    if got1 == want.rows and typed(got1) != typed(want.rows):
+        out["violations"].append({
+            "kind": "rows_differ_in_value_type",
+            "detail": f"program {model.show(prog)} tree {short(rel)} got {short(got1, 400)} want {short(want.rows, 400)}",
+        })
+    elif got1 != want.rows:
         out["violations"].append({
             "kind": "rows_differ",
             "detail": f"program {model.show(prog)} tree {short(rel)} got {short(got1, 400)} want {short(want.rows, 400)}",
         })
-    elif got2 != got1:
+    elif got2 != got1 or typed(got2) != typed(got1):
         out["violations"].append({"kind": "second_execution_differs", "detail": model.show(prog)})
     if {t.qualified_name for t in rel.columns} != set(want.cols):
         out["violations"].append({"kind": "columns_differ", "detail": f"{model.show(prog)}: {rel.columns} vs {sorted(want.cols)}"})
     nops = sum(1 for s in model.subprograms(prog) if s[0] != "leaf")
+    if nops >= 8:
+        out["counters"]["programs_with_8_or_more_operations"] = 1
+    if any(type(v) is not int for sp in case["leaves"].values() for r in sp["rows"] for v in r):
+        out["counters"]["mixed_numeric_types"] = 1
     if nops >= 2:
         out["sig"] = gen.op_signature(prog) + "|" + ",".join(sorted(rw))
         out["sample"] = {"program": model.show(prog), "library_tree": short(rel, 200), "rows": len(got1), "rewrites": sorted(rw)}
